@@ -1094,7 +1094,8 @@ static Error JitAllocatorImpl_shrink(JitAllocatorPrivateImpl* impl, JitAllocator
   uint32_t span_prev_size = area_prev_size * pool->granularity;
   uint32_t area_shrunk_size = pool->area_size_from_byte_size(new_size);
 
-  if (ASMJIT_UNLIKELY(area_shrunk_size > area_prev_size)) {
+  // Compare bytes - `area_shrunk_size` wraps around if `new_size` is 4G granules or more.
+  if (ASMJIT_UNLIKELY(new_size > span_prev_size)) {
     return make_error(Error::kInvalidArgument);
   }
 
